@@ -47,6 +47,10 @@ func (fr *FuncRun) havocResults(st *State, res *types.Tuple, hint string) Val {
 	return Val{Tup: tup}
 }
 
+func (fr *FuncRun) existingRefTerm(t string, typ types.Type) {
+	fr.existingRef(Val{T: t}, typ)
+}
+
 // existingRef: a reference obtained from a call was allocated before now.
 func (fr *FuncRun) existingRef(v Val, t types.Type) {
 	if hasBound(v.T) {
@@ -560,8 +564,21 @@ func (fr *FuncRun) builtinAppend(f *Frame, st *State, c *ssa.CallCommon, args []
 			}
 			savedFresh := fr.curWriteFresh
 			fr.curWriteFresh = s.FreshArr
-			fr.heapSet(st, eh, sto(cur, arr, contents))
+			newInner := fr.constFor("(Array Int "+w.SortOf(stype.Elem())+")", contents, "appinner")
+			fr.heapSet(st, eh, sto(cur, arr, newInner))
 			fr.curWriteFresh = savedFresh
+			// the same facts in the vocabulary of the element accessor, so that quantified clauses over
+			// slice elements transfer from the old to the new backing array by E-matching
+			{
+				oldInner := fr.constFor("(Array Int "+w.SortOf(stype.Elem())+")", sel(cur, "(s-arr "+s.T+")"), "oldinner")
+				off := fr.constFor(sInt, "(s-off "+s.T+")", "off")
+				i := fr.freshName("i")
+				fr.assume(st, fmt.Sprintf("(forall ((%s Int)) (! (=> (and (<= 0 %s) (< %s (s-len %s))) (= %s %s)) :pattern (%s)))", i, i, i, s.T,
+					w.At(stype.Elem(), newInner, off, i), w.At(stype.Elem(), oldInner, off, i), w.At(stype.Elem(), newInner, off, i)))
+				for k, e := range elems {
+					fr.assume(st, eq(w.At(stype.Elem(), newInner, off, fmt.Sprintf("(+ (s-len %s) %d)", s.T, k)), e))
+				}
+			}
 			fr.assumed["abstraction: a reallocating append copies the whole old backing array (cells beyond len are not zeroed)"] = true
 			r := fr.def(sSlice, fmt.Sprintf("(mk-slice %s (s-off %s) %s %s)", arr, s.T, newLen, cp))
 			return Val{T: r, S: sSlice, FreshArr: s.FreshArr}
